@@ -199,6 +199,33 @@ func checkReseed(w *World, r *Report, d *detInfo, k *kernels, curFFCField int, r
 			r.Check(okG, rule, "the background is not updated while the current frame is FFC-affected", w.InstrPos(call), strings.Join(guardStrings(gs), " ; "))
 			// prevFFC argument is the previous state
 			pa := call.Call.Args[2]
+			// handed down through a stage method split off Detect: the value its single caller passes
+			for hop := 0; hop < 2; hop++ {
+				prm, isParam := pa.(*ssa.Parameter)
+				if !isParam || prm.Parent() == d.Detect {
+					break
+				}
+				idx := -1
+				for i, q := range prm.Parent().Params {
+					if q == prm {
+						idx = i
+					}
+				}
+				var sites []*ssa.Call
+				for _, cf := range w.callersOf(prm.Parent()) {
+					for _, cb := range cf.Blocks {
+						for _, cin := range cb.Instrs {
+							if cc, ok := cin.(*ssa.Call); ok && cc.Call.StaticCallee() == prm.Parent() {
+								sites = append(sites, cc)
+							}
+						}
+					}
+				}
+				if len(sites) != 1 || idx < 0 || idx >= len(sites[0].Call.Args) {
+					break
+				}
+				pa = sites[0].Call.Args[idx]
+			}
 			okP := false
 			if u, ok := pa.(*ssa.UnOp); ok {
 				if fa, ok := u.X.(*ssa.FieldAddr); ok && fa.Field == curFFCField {
@@ -793,6 +820,10 @@ func propC15(w *World, r *Report) {
 		r.Unknown("A6", "throttle pass-through", "-", err.Error())
 	}
 	checkSettingsImmutable(w, r, "A1", "ThermalMotion:DynamicThreshold|TempThresh|TempThreshMin|TempThreshMax", "Config:Motion") // dynamic-thresh, temp-thresh limits as configured
+	// what reaches the file: the header written at the start carries the threshold and the background it was handed (C11.H1)
+	linkObligations(w, r, propC11, "C11", func(o *Obligation) bool {
+		return strings.HasPrefix(o.Construct, "header.MotionConfig at start") || strings.HasPrefix(o.Construct, "header.BackgroundFrame at start")
+	}, "A6")
 }
 
 func minInt(a, b int) int {
